@@ -38,15 +38,15 @@ def eval_family(gens, judges=()):
 
 
 REGISTRY = {
-    "C01": eval_family([props.gen_C01, props.gen_C01_wide], [shellprops.judge_shell]),
-    "C02": eval_family([props.gen_C02, props.gen_C02_wide], [props.judge_pairs, shellprops.judge_shell]),
+    "C01": eval_family([props.gen_C01, props.gen_C01_wide, props.gen_C01_names], [shellprops.judge_shell]),
+    "C02": eval_family([props.gen_C02, props.gen_C02_wide, props.gen_C02_bigdomain], [props.judge_pairs, shellprops.judge_shell]),
     "C03": eval_family([props.gen_C03]),
-    "C04": eval_family([props.gen_C04, props.long_wildcard_batch], [props.judge_groups]),
-    "C10": eval_family([props.gen_C10, props.gen_bench_subst], [props.judge_pairs, props.judge_groups, shellprops.judge_shell]),
+    "C04": eval_family([props.gen_C04, props.long_wildcard_batch, props.gen_C04_domains], [props.judge_groups]),
+    "C10": eval_family([props.gen_C10, props.gen_bench_subst, props.gen_C10_patterns], [props.judge_pairs, props.judge_groups, shellprops.judge_shell]),
     "C11": eval_family([props.gen_C11, props.gen_C11_big, props.gen_bench_laws, props.gen_library_coincidence, props.gen_C11_wide, props.gen_C11_many], [props.judge_laws, shellprops.judge_shell]),
-    "C12": eval_family([props.gen_C12, props.gen_bench_patterns, props.gen_C12_wide], [props.judge_pairs, props.judge_laws, shellprops.judge_shell]),
+    "C12": eval_family([props.gen_C12, props.gen_bench_patterns, props.gen_C12_wide, props.gen_C12_unsafe], [props.judge_pairs, props.judge_laws, shellprops.judge_shell]),
     "C13": eval_family([props.gen_C13, props.gen_C13_wide, shellprops.gen_cli_single_operator_files], [props.judge_laws, shellprops.judge_shell]),
-    "C15": eval_family([props.gen_C15, props.gen_C15_batches, props.gen_C15_names, props.gen_C15_narrowed], [props.judge_groups, props.judge_raw_twins]),
+    "C15": eval_family([props.gen_C15, props.gen_C15_batches, props.gen_C15_names, props.gen_C15_narrowed, props.gen_C15_nonuniform], [props.judge_groups, props.judge_raw_twins]),
     "C18": eval_family([props.gen_C18], [props.judge_pairs, shellprops.judge_shell]),
 }
 REGISTRY.update(front.REGISTRY)
